@@ -359,6 +359,12 @@ class Encoder:
                 if self.shuffle is not None and len(n.children) > 1:
                     self.shuffle.shuffle(n.children)
                     self.used.add("setof-order")
+                elif (self.real_forms is not None or self.time_forms is not None) and len(children) > 1:
+                    # only the notation of the elements is meant to differ: they stay in the order of their DER encodings
+                    # (the order in which elements are received is a finding of its own under OER, see 'setof-order')
+                    canon = Encoder(self.mod)
+                    keys = [serialize(canon.tree(rt.elem, e)) for e in v]
+                    n.children = [ch for _, _, ch in sorted(zip(keys, range(len(children)), children), key=lambda x: (x[0], x[1]))]
                 else:
                     n.children.sort(key=lambda ch: serialize(ch))
             return n
